@@ -20,7 +20,8 @@ EXPLANATION = ('Theorems over Model/Orm.v + correspondence with the real SQLObje
 TRUSTED_BASE = L.TRUSTED_COMMON
 PROFILE = L.profile(without=['clear', 'pickle', 'unpickle'],
                     weights={'read': 14, 'setattr': 14, 'set': 12, 'sync': 5, 'expire': 2, 'expireall': 1, 'rawupdate': 3, 'rawdelete': 1,
-                             'select': 10, 'destroy': 3}, p_fault=0.0)
+                             'select': 10, 'destroy': 3}, p_fault=0.0,
+                    motifs=[L.motif_refresh_after_raw, L.motif_lazy_refetch, L.motif_expire_get], p_motif=0.08)
 
 
 def corpus():
@@ -32,6 +33,12 @@ def corpus():
         # out-of-band update, then sync
         {'cfg': {'cache': True, 'freq': 100, 'frac': 2}, 'ops': [['create', 0, [[1, 100], [0, 1]]], ['rawupdate', 0, 1, 0, 7], ['sync', 0], ['read', 0, 0]]},
         {'cfg': {'cache': True, 'freq': 100, 'frac': 2}, 'ops': [['create', 0, [[1, 100], [0, 1]]], ['rawdelete', 0, 1], ['expire', 0], ['read', 0, 0]]},
+        # seeded once: sync() that leaves the expired flag set makes the next expire() a no-op
+        {'cfg': {'cache': True, 'freq': 100, 'frac': 2},
+         'ops': [['create', 0, [[1, 100], [0, 1]]], ['expire', 0], ['sync', 0], ['rawupdate', 0, 1, 0, 7], ['expire', 0], ['read', 0, 0]]},
+        # seeded once: a select re-fetch must not overwrite an object with pending lazy assignments
+        {'cfg': {'cache': True, 'freq': 100, 'frac': 2},
+         'ops': [['create', 1, [[1, 100], [0, 1]]], ['setattr', 0, 0, 3], ['select', 1, None, None], ['syncupdate', 0], ['read', 0, 0]]},
         # second instance after expire, written through: the held one goes stale (open finding of C04)
         {'cfg': {'cache': True, 'freq': 100, 'frac': 2},
          'ops': [['create', 0, [[1, 100], [0, 1]]], ['expire', 0], ['get', 0, 1], ['read', 0, 0], ['setattr', 1, 0, 4], ['read', 0, 0]]},
@@ -48,28 +55,52 @@ def search_cases(rng, tier):
 
 
 def failures(case, obs):
+    ident = L.identities(case, obs)
+    objs = {}      # (kind, id) -> the distinct objects the application has held for that row
+    awe = set()    # rows of lazy objects that were assigned to while expired (open finding of C16)
     for info in L.Walk(case, obs):
         st, core = info['st'], info['core']
         t = core[0]
-        # rows of which two instances are alive (an identity violation, C04) or that were destroyed while an instance lives on
+        if t in ('setattr', 'set') and core[1] < len(info['prev']['slots']):
+            tv = info['prev']['slots'][core[1]]
+            if tv is not None and tv[0] == 1 and tv[4]:
+                awe.add((tv[0], tv[1]))
+        for j, v in enumerate(st['slots']):
+            if v is not None and j < len(ident):
+                objs.setdefault((v[0], v[1]), set()).add(ident[j])
+
+        # rows of which two instances exist after an expire purged the identity map (C04), or that were destroyed
+        # while an instance lives on
         def ctx(v):
-            return {'purged': (v[0], v[1]) in info['purged'] or (t in ('expire', 'expireall')),
-                    'destroyed': (v[0], v[1]) in info['destroyed'], 'cache': case['cfg']['cache']}
-        for f in L.coherence_failures(st, skip_slots=info['tainted'] | tainted_now(info)):
+            return {'purged': (v[0], v[1]) in info['purged'] and len(objs.get((v[0], v[1]), ())) >= 2,
+                    'destroyed': (v[0], v[1]) in info['destroyed'], 'cache': case['cfg']['cache'],
+                    'assigned_while_expired': (v[0], v[1]) in awe}
+        for f in L.coherence_failures(st, skip_slots=info['tainted'] | tainted_now(info), lazy_row_ok=True):
             v = st['slots'][f['slot']]
             d = {'step': info['n'], 'op': info['op'], 'what': 'held instance %s/%d shows %r for column %s, the row has %r' % (
                 L.KINDS[v[0]], v[1], f['cached'], L.COLS[f['col']], f['row']), 'row': [v[0], v[1]]}
             d.update(ctx(v))
             yield d
         # explicit read
-        if t == 'read' and core[1] < len(info['prev']['slots']) and info['prev']['slots'][core[1]] is not None \
-                and core[1] not in info['tainted']:
+        if t == 'read' and core[1] < len(info['prev']['slots']) and info['prev']['slots'][core[1]] is not None:
             v = info['prev']['slots'][core[1]]
             if v[5]:
+                continue
+            if (v[0], v[1]) in info['gone']:
+                # the row was deleted behind the library's back: a read that has to reload must raise not-found
+                if v[2][core[2]][0] == 'absent' and v[0] != 2 and not (st['out'][0] == 'exc' and st['out'][1] == 'ENotFound'):
+                    d = {'step': info['n'], 'op': info['op'], 'what': 'read of a column of a deleted row (nothing cached) returned %r instead of raising not-found' % (st['out'],), 'row': [v[0], v[1]]}
+                    d.update(ctx(v))
+                    yield d
+                continue
+            if core[1] in info['tainted']:
                 continue
             exp = L.expected_value(st, v, core[2])
             got = st['out']
             bad = None
+            row = L.row_of(st, v[0], v[1])
+            if v[6] and row is not None and got == ['ret', ['val', row[core[2]]]]:
+                continue            # lazy object: the stored value is shown although another one is pending (judged by C16)
             if exp == ('gone',):
                 if not (got[0] == 'exc' and got[1] in ('ENotFound', 'EAssertion')) and v[2][core[2]][0] == 'absent':
                     bad = 'read of a deleted row returned %r' % (got,)
@@ -105,6 +136,8 @@ def classify(case, obs, f):
         return 'stale_after_expire_purged_identity'
     if f.get('destroyed'):
         return 'instance_of_destroyed_row_keeps_values'
+    if f.get('assigned_while_expired'):
+        return 'lazy_assignment_on_expired_object_hidden_by_reload'
     return None
 
 
